@@ -32,15 +32,16 @@ UNCOVERED = [
     "smoke differential only (kind 'backend'), a test, not a theorem",
     "float64 evaluation of the observables (qutip.expect, overlap, sqrt): compared with the exact model at 1e-9",
     "sampled bitstring counts are random: only looked at under a fixed numpy seed against a 6-sigma band (warnings)",
-    "general statements Tr[rho n_i] = sum_sigma p_sigma [sigma_i = one] and code = definition on pure states: "
-    "instances only (occupation_index_partial, energy_moments_pure_partial)",
+    "general statement <n_i n_j> = sum_sigma p_sigma [sigma_i = one and sigma_j = one] for the correlation matrix: "
+    "instance only (correlation_index_partial); occupation and the energy moments are proved in general",
 ]
 
 EXPLANATION = (
     "Partial. Lean theorems over exact rationals (Properties/C20.lean) carry: Results store invariant and "
     "retrievability, the evaluation-time rule (documented vs implemented, F8 counterexample + exact divergence "
     "condition), from_operator_repr = Kronecker construction entry-wise, composition/linearity laws, the bitstring "
-    "probability convention, pure = mixed. Each run ties the model to /repo by differential execution of the real "
+    "probability convention, pure = mixed, occupation = its definition, energy second moment and variance = their "
+    "definitions for pure and mixed states (Hermitian H). Each run ties the model to /repo by differential execution of the real "
     "QutipState/QutipOperator/default_observables/Results/Observable.__call__ against pm_meas on identical exact "
     "inputs, and a monitor restates every clause over the real objects. The dynamics clause is only smoke-tested."
 )
@@ -577,14 +578,14 @@ def run_obs(drv, case) -> Outcome:
         occ_op = [mc.uncq(x) for x in m["occ_op"]]
         corr_m = [[float(Fraction(x)) for x in r] for r in m["corr"]]
         corr_op = [[mc.uncq(x) for x in r] for r in m["corr_op"]]
-        code_m2 = np.sqrt(max(mc.uncq(m["code_m2_sq"]).real, 0.0))
-        code_var = code_m2 - mc.uncq(m["code_sub"]).real
+        code_m2 = mc.uncq(m["code_m2"]).real        # identity.expect(H rho H^dagger)
+        code_var = mc.uncq(m["code_var"]).real
         pairs = [
             ("occupation", real["occ"], occ_m), ("occupation(operator route)", occ_op, occ_m),
             ("correlation", real["corr"], corr_m), ("correlation(operator route)", corr_op, corr_m),
             ("energy", real["energy"], mc.uncq(m["energy"])),
-            ("second moment (formula of this tree)", real["m2"], code_m2),
-            ("variance (formula of this tree)", real["var"], code_var),
+            ("second moment (identity.expect(H rho H))", real["m2"], code_m2),
+            ("variance (identity.expect(H rho H) - <H>^2)", real["var"], code_var),
         ]
         if is_ket:
             pairs.append(("energy (ket formula)", real["energy"], mc.uncq(m["energy_ket"])))
